@@ -11,7 +11,7 @@ from functools import reduce
 from builtins import type as Type
 
 from sqlglot import exp
-from sqlglot.dialects import DIALECT_MODULE_NAMES
+from sqlglot.dialects import DIALECT_MODULE_NAMES, _import_lock
 from sqlglot.errors import ParseError
 from sqlglot.generator import Generator, unsupported_args
 from sqlglot.expressions import apply_index_offset
@@ -196,7 +196,10 @@ class _Dialect(type):
 
         # 1. Try standard sqlglot modules first
         if key in DIALECT_MODULE_NAMES:
-            module = importlib.import_module(f"sqlglot.dialects.{key}")
+            # Same lock (and therefore same lock order) as the package's lazy attribute access,
+            # so that two threads can't each hold what the other one is waiting for
+            with _import_lock:
+                module = importlib.import_module(f"sqlglot.dialects.{key}")
             # If module was already imported, the class may not be in _classes
             # Find and register the dialect class from the module
             if key not in cls._classes:
